@@ -81,11 +81,11 @@ impl Prop for C11 {
         Some("tape")
     }
     fn rule(&self) -> String {
-        "generated transition systems (arrays, shared sub-expressions between init/next/bad/constraint/output, labels aliasing states/inputs, debug names on intermediate nodes, some inputs named _input_N/_state_N). simplify_expressions: same input and state symbols in the same order; every init/next/output/bad/constraint is reference-evaluator-equal before/after (all assignments when <= 14 symbol bits, else 48 samples); 4-step lock-step run of both systems in the reference simulator with random inputs; every debug name still present is attached to a node equivalent to the one it named. replace_anonymous_inputs_with_zero: the anonymous inputs are gone from `inputs`, no expression mentions them, every function equals the original with those inputs fixed to zero. Non-trivial: >= 1 root changed by the transformation and >= 1 non-leaf sub-expression shared between two roots; distinct by hash of the system text.".into()
+        "generated transition systems (arrays, shared sub-expressions between init/next/bad/constraint/output, labels aliasing states/inputs, debug names on intermediate nodes, some inputs named _input_N/_state_N). simplify_expressions: same input and state symbols in the same order; every init/next/output/bad/constraint is reference-evaluator-equal before/after (all assignments when <= 14 symbol bits, else 48 samples); 4-step lock-step run of both systems in the reference simulator with random inputs; every debug name still present is attached to a node equivalent to the one it named. replace_anonymous_inputs_with_zero: the anonymous inputs are gone from `inputs`, no expression mentions them, every function equals the original with those inputs fixed to zero. In 31% of the cases one or two further transformations are applied to the result (a history on one system), each judged against its own input. Non-trivial: >= 1 root changed by the transformation and >= 1 non-leaf sub-expression shared between two roots; distinct by hash of the system text.".into()
     }
     fn budget(&self, tier: Tier) -> Budget {
         match tier {
-            Tier::Quick => Budget { cases: 40_000, max_tape: 640 },
+            Tier::Quick => Budget { cases: 30_000, max_tape: 640 },
             Tier::Thorough => Budget { cases: 800_000, max_tape: 1024 },
         }
     }
@@ -128,6 +128,34 @@ impl Prop for C11 {
             s
         };
 
+        // a history on one system: up to three transformations in a row, each judged against its input
+        let mut cur = orig.clone();
+        let stages = 1 + if t.chance(80) { 1 + t.below(2) } else { 0 };
+        for k in 0..stages {
+            let w = if k == 0 { which } else { t.below(3) };
+            if k > 0 {
+                rec.label("history:further-transformation-on-the-result");
+            }
+            cur = stage(ctx, &cur, w, &envs, &mut rng, rec, shared)?;
+        }
+        Ok(())
+    }
+}
+
+/// One transformation applied to `orig`, judged against `orig`; returns the transformed system so that a
+/// further transformation can be applied to it (a history on one system).
+#[allow(clippy::too_many_arguments)]
+fn stage(
+    ctx: &mut Context,
+    orig: &TransitionSystem,
+    which: u32,
+    envs: &[Env],
+    rng: &mut SplitMix,
+    rec: &mut Recorder,
+    shared: bool,
+) -> Result<TransitionSystem, Failure> {
+    let text = show_system(ctx, orig);
+    let orig = orig.clone();
         if which < 2 {
             rec.label("transform:simplify_expressions");
             let mut sys = orig.clone();
@@ -152,7 +180,7 @@ impl Prop for C11 {
                     format!("{}\noriginal: {}\nresult: {}", m.msg, text, show_system(ctx, &sys)),
                 ));
             }
-            if let Err(m) = lockstep(ctx, &orig, &sys, &mut rng, 4) {
+            if let Err(m) = lockstep(ctx, &orig, &sys, rng, 4) {
                 return Err(Failure::new(
                     "sys-transform/simplify/lockstep-diverges",
                     format!("{}\noriginal: {}\nresult: {}", m, text, show_system(ctx, &sys)),
@@ -210,6 +238,7 @@ impl Prop for C11 {
                     rec.sample(format!("simplify: {}  ==>  {}", text, show_system(ctx, &sys)));
                 }
             }
+            Ok(sys)
         } else {
             rec.label("transform:replace_anonymous_inputs_with_zero");
             let mut sys = orig.clone();
@@ -295,7 +324,6 @@ impl Prop for C11 {
                     rec.sample(format!("anon->0: {}  ==>  {}", text, show_system(ctx, &sys)));
                 }
             }
+            Ok(sys)
         }
-        Ok(())
-    }
 }
